@@ -35,6 +35,7 @@ class T:
     worker_of = {}  # thread ident -> worker id
     event_file = None  # per-pid append-only file in process mode
     installed = False
+    locks_traced = True
     real = {}
 
 
@@ -225,14 +226,16 @@ class OsProxy:
 def install():
     if T.installed:
         return
-    for name in ("filelock", "inevalfilelock", "os"):
-        if not hasattr(PA, name):
-            raise SystemExit(f"INCONCLUSIVE reason=panoptica_aggregator.{name} not found; cannot trace")
-    T.real = {"filelock": PA.filelock, "inevalfilelock": PA.inevalfilelock, "os": PA.os}
-    PA.filelock = TracedLock(PA.filelock, "filelock")
-    PA.inevalfilelock = TracedLock(PA.inevalfilelock, "inevalfilelock")
+    T.locks_traced = hasattr(PA, "filelock") and hasattr(PA, "inevalfilelock")
+    if T.locks_traced:
+        T.real = {"filelock": PA.filelock, "inevalfilelock": PA.inevalfilelock}
+        PA.filelock = TracedLock(PA.filelock, "filelock")
+        PA.inevalfilelock = TracedLock(PA.inevalfilelock, "inevalfilelock")
+    # without the two module-level locks the controlled scheduler cannot model blocking; file operations are
+    # still traced, and the thread / process histories (real locks, whatever they are) are still judged
     PA.open = traced_open
-    PA.os = OsProxy(PA.os)
+    if hasattr(PA, "os"):
+        PA.os = OsProxy(PA.os)
     PS.open = traced_open
     T.installed = True
 
@@ -241,8 +244,9 @@ def fresh_locks():
     """new unlocked lock objects, as a new process would have (used after fork in C17)"""
     from multiprocessing import Lock
 
-    PA.filelock = TracedLock(Lock(), "filelock")
-    PA.inevalfilelock = TracedLock(Lock(), "inevalfilelock")
+    if T.locks_traced:
+        PA.filelock = TracedLock(Lock(), "filelock")
+        PA.inevalfilelock = TracedLock(Lock(), "inevalfilelock")
 
 
 def reset(mode="off", **kw):
